@@ -716,6 +716,15 @@ class IMAPUserServer:
                 "Not initializing sentry_sdk: SENTRY_DSN not in enviornment"
             )
 
+        # The email package parses and renders a message by recursion over
+        # its MIME structure, several frames per level. With the default limit
+        # one message with a few hundred nested multiparts delivered to a
+        # folder made every command that has to look at it (FETCH, SEARCH,
+        # POP3's STAT and LIST) fail with RecursionError, which closes the
+        # client's connection: the mailbox could not be read any more.
+        #
+        sys.setrecursionlimit(max(sys.getrecursionlimit(), 20000))
+
         # Listen to SIGUSR1 to toggle tracing on and office
         #
         loop = asyncio.get_event_loop()
